@@ -41,6 +41,7 @@ func Run(c *vk.Ctx) {
 	defer debug.SetGCPercent(debug.SetGCPercent(2000))
 	runTranslate(c)
 	runToolSeam(c)
+	runNMProcess(c)
 	runSymtab(c)
 }
 
